@@ -23,8 +23,17 @@ class Boom(Exception):
     pass
 
 
+class BoomT(TypeError):
+    """what comparing keys of unrelated types raises; code that answers "not there" to a TypeError from a
+    key *conversion* must not do so for one raised by a comparison"""
+
+
 def main():
+    global Boom
     job = json.load(open(sys.argv[1]))
+    if job.get('exc') == 'TypeError':
+        Boom = BoomT
+    exc = job.get('exc', 'Exception')
     from harness import embed, proj as P, graph, keys
     impl, is_set = job['impl'], job['is_set']
     emb = keys.KEmb()
@@ -225,8 +234,15 @@ def main():
             else:
                 calls += [('pop', lambda: (t.pop(lo, None), None)[1], True), ('setdefault', lambda: (t.setdefault(lo, emb.val(1)), None)[1], True),
                           ('items(min,max)', lambda: [x.v for x, _ in t.items(lo, hi)], False),
-                          ('values(min)', lambda: list(t.values(lo)), False)]
+                          ('values(min)', lambda: [v for v in t.values(lo)], False)]
             calls.append(('iter-range', lambda: [x.v for x in t.iterkeys(lo, hi)], False))
+            calls += [('contains', lambda: lo in t, False), ('has_key', lambda: bool(t.has_key(lo)), False)]
+            if is_set:
+                calls += [('discard', lambda: t.discard(lo), True), ('remove', lambda: t.remove(lo), True),
+                          ('^=', lambda: (t.__ixor__((lo,)), None)[1], True)]
+            else:
+                calls += [('getitem', lambda: (t[lo], None)[1], False), ('get-default', lambda: (t.get(lo, None), None)[1], False),
+                          ('pop-nodefault', lambda: (t.pop(lo), None)[1], True)]
             return calls
         names = [c[0] for c in mk_calls(t0)]
         for ci, name in enumerate(names):
@@ -269,6 +285,61 @@ def main():
                     now = refs()
                 if now != base0b:
                     mism.append(dict(w2, kind='references-after-destruction', real={r: now[r] - base0b[r] for r in now if now[r] != base0b[r]}))
+        # ---- part C: the same enumeration on stand-alone leaf containers (Bucket / Set) holding this shape's keys
+        def mk_leaf():
+            return leafcls([pool[r] for r in ks_present]) if is_set else leafcls({pool[r]: emb.val(1) for r in ks_present})
+
+        def leaf_calls(b):
+            a, z = pool[2], pool[max(2, nk)]
+            cs = [('leaf contains', lambda: a in b, False), ('leaf has_key', lambda: bool(b.has_key(a)), False),
+                  ('leaf keys(min,max)', lambda: [x.v for x in b.keys(a, z)], False),
+                  ('leaf minKey(b)', lambda: b.minKey(a).v, False), ('leaf maxKey(b)', lambda: b.maxKey(z).v, False)]
+            if is_set:
+                cs += [('leaf add', lambda: (b.add(a), None)[1], True), ('leaf remove', lambda: b.remove(a), True),
+                       ('leaf discard', lambda: b.discard(a), True)]
+            else:
+                cs += [('leaf get', lambda: (b.get(a, None), None)[1], False), ('leaf getitem', lambda: (b[a], None)[1], False),
+                       ('leaf setitem', lambda: b.__setitem__(a, emb.val(2)), True), ('leaf delitem', lambda: b.__delitem__(a), True),
+                       ('leaf pop', lambda: (b.pop(a, None), None)[1], True), ('leaf setdefault', lambda: (b.setdefault(a, emb.val(2)), None)[1], True)]
+            return cs
+        if ks_present:
+            lnames = [c[0] for c in leaf_calls(mk_leaf())]
+            for ci, name in enumerate(lnames):
+                b = mk_leaf()
+                before_l = P.proj_leaf(b, emb, is_set)
+                out, log = with_hook(leaf_calls(b)[ci][1])
+                done_l = P.proj_leaf(b, emb, is_set)
+                del b
+                counts['partb_calls'] += 1
+                if out[0] not in ('ok', 'KeyError'):
+                    continue
+                for j in range(min(len(log), job.get('partb_cap', 40))):
+                    base0b = refs()
+                    b = mk_leaf()
+                    base = refs()
+                    fn = leaf_calls(b)[ci][1]
+                    out2, _ = with_hook(fn, fail_at=j)
+                    del fn
+                    counts['partb_faults'] += 1
+                    after = P.proj_leaf(b, emb, is_set)
+                    w2 = dict(impl=impl, is_set=is_set, sizes=[job['leaf'], job['internal']], tree=tree, op=name, k=0, fail_at=j, comparisons=len(log))
+                    if out2 != ['Boom']:
+                        mism.append(dict(w2, kind='exception-lost', real=out2))
+                    if after != before_l and after != done_l:
+                        mism.append(dict(w2, kind='partial-change', before=before_l, completed=done_l, real=after))
+                    now = refs()
+                    if after == before_l and now != base:
+                        gc.collect()
+                        now = refs()
+                    if after == before_l and now != base:
+                        mism.append(dict(w2, kind='references', real={r: now[r] - base[r] for r in now if now[r] != base[r]}))
+                    del b
+                    now = refs()
+                    if now != base0b:
+                        gc.collect()
+                        now = refs()
+                    if now != base0b:
+                        mism.append(dict(w2, kind='references-after-destruction', real={r: now[r] - base0b[r] for r in now if now[r] != base0b[r]}))
         # conflict merge of leaf states with instrumented keys
         if ks_present and job.get('merge', True):
             ks = ks_present
@@ -299,7 +370,9 @@ def main():
         if len(mism) > 40:
             break
     embed.restore_sizes(old)
-    json.dump(dict(counts=counts, mismatches=mism[:60]), open(sys.argv[2], 'w'))
+    for mm in mism:
+        mm['exc'] = exc
+    json.dump(dict(counts=counts, mismatches=mism[:60]), open(sys.argv[2], 'w'), default=repr)
 
 
 if __name__ == '__main__':
